@@ -8,9 +8,9 @@
      ODef h o                  the Deferred returned by the h-th Deferred-returning makeRequest call fires with o
      t_dlog                    correlation id passed to makeRequest, per handle (dlog_is_make_log)
      CInv                      the invariant every reachable state satisfies (C06_reachable) *)
-From AV Require Import Base.Util Model.Framing Model.BrokerClient Model.BrokerClientHook
+From AV Require Import Base.Util Model.Framing Model.BrokerClient
   Proofs.FramingFacts Proofs.FramingExtra Proofs.FramingBootstrap Proofs.BrokerClientTbl Proofs.BrokerClientInv
-  Proofs.BrokerClientC06 Proofs.BrokerClientChunk Proofs.BrokerClientHook.
+  Proofs.BrokerClientC06 Proofs.BrokerClientChunk.
 
 (* ------------------------------------------------------------------ framing *)
 
@@ -100,24 +100,6 @@ Theorem C06_nothing_after_fired : forall evs s outs a h oc b, run init evs = (s,
   forall o, In o b -> (forall oc', o <> ODef h oc') /\ (forall rid, o <> OWrite h rid).
 Proof. exact after_fired. Qed.
 Print Assumptions C06_nothing_after_fired.
-
-(* The same two statements when user callbacks call close() / cancel() from the only place where a Deferred of the
-   class fires in the middle of a method (the callback of a no-reply request inside _sendQueued;
-   Model/BrokerClientHook.v, loop as repaired by commit 7c12cf4, finding F-C10-1). *)
-Theorem C06_exactly_once_reentrant : forall evs s hk outs, hrun true hinit evs = ((s, hk), outs) ->
-  NoDup (def_handles outs)
-  /\ (forall o, In o outs -> ~ ((exists k h, o = OErr k h) \/ o = ORaised 5))
-  /\ (forall h, In h (def_handles outs) <->
-                (h < length (t_dlog (s_t s)))%nat
-                /\ ~ (exists r, In r (t_reqs (s_t s)) /\ r_h r = h /\ r_cancelled r = false)).
-Proof. exact exactly_once_h. Qed.
-Print Assumptions C06_exactly_once_reentrant.
-
-Theorem C06_nothing_after_fired_reentrant : forall evs s hk outs a h oc b,
-  hrun true hinit evs = ((s, hk), outs) -> outs = a ++ ODef h oc :: b ->
-  forall o, In o b -> (forall oc', o <> ODef h oc') /\ (forall rid, o <> OWrite h rid).
-Proof. exact after_fired_h. Qed.
-Print Assumptions C06_nothing_after_fired_reentrant.
 
 (* Own response: a success value is a frame whose first four bytes decode to the correlation id that was passed to
    the makeRequest call which created that Deferred. *)
